@@ -75,6 +75,81 @@ def run_taskrefs(ctx, rep, rid="R-C02-taskrefs"):
                     r.finding(inst + "|not-checked", where, "%s names a task, but the task-definition rule never reads it: a reference to a task that is not defined is accepted there" % inst)
 
 
+
+
+TYPE_NAMING = {
+    # InitialValueAssignmentKind variant -> (must the resolver look the type up?, reason when not)
+    "None": (False, "no type named"),
+    "Simple": (True, ""),
+    "String": (False, "STRING/WSTRING are elementary"),
+    "EnumeratedValues": (False, "inline enumeration: defines its values, names no type"),
+    "EnumeratedType": (False, "the enumeration named is checked by rule_use_declared_enumerated_value (P0012)"),
+    "FunctionBlock": (True, ""),
+    "Subrange": (False, "the grammar only accepts an elementary integer type name in front of a subrange"),
+    "Structure": (True, ""),
+    "Array": (True, ""),
+    "LateResolvedType": (True, ""),
+}
+
+
+def run_typeuses(ctx, rep, rid="R-C02-typeuses"):
+    """"Every used type declared": a variable declaration names its type in one of the InitialValueAssignmentKind variants.  For each variant
+    that can name a user-declared type, the arm of TypeResolver::fold_initial_value_assignment_kind looks the name up in the type table
+    (directly or through a helper all of whose paths do) - otherwise `x : Unknown := 5` is accepted."""
+    from vlib.mir import switch_info
+    from rules.c07 import must_call
+    r = rep.rule(rid, "the type named by a variable declaration is looked up in the table of declared types for every kind of initializer that can name a user type (P0022)",
+                 floor=8, floor_what="InitialValueAssignmentKind variants")
+    bs = [b for b in ctx.prog.bodies.values() if b.f["crate"] == "ironplc_analyzer" and "xform_resolve_late_bound_type_initializer" in b.f["file"]
+          and b.f["name"] == "fold_initial_value_assignment_kind" and "::test" not in norm(b.id)]
+    if not bs:
+        rep.error(rid, "TypeResolver::fold_initial_value_assignment_kind not found")
+        return
+    b = bs[0]
+    sw = None
+    for i in sorted(b.reachable(0)):
+        si = switch_info(b, i)
+        if si and si["kind"] == "disc" and (si.get("adt") or "").endswith("InitialValueAssignmentKind"):
+            sw = si
+            break
+    if sw is None:
+        rep.error(rid, "no match on InitialValueAssignmentKind")
+        return
+    arm_of = {}
+    for succ, labs in sw["edges"].items():
+        for l in labs:
+            arm_of[str(l)] = succ
+    entries = set(arm_of.values())
+    look_bbs = set()
+    for c in b.calls():
+        nm = c.callee or ""
+        if nm.endswith("SymbolTable::find") or nm.endswith("::find") and "symbol_table" in nm:
+            look_bbs.add(c.bb)
+        elif nm.startswith("ironplc_analyzer::") and any(("symbol_table" in (c2.callee or "") and (c2.callee or "").endswith("::find")) for cb in ctx.prog.get(nm) or [] for c2 in cb.calls()):
+            look_bbs.add(c.bb)          # a helper that consults the table (after ruling out the elementary names)
+    adt = ctx.facts.adts["ironplc_dsl::common::InitialValueAssignmentKind"]
+    where = "%s:%d" % (b.f["file"], b.f["line"])
+    for v in adt["variants"]:
+        name = v["name"]
+        inst = "InitialValueAssignmentKind::%s" % name
+        row = TYPE_NAMING.get(name)
+        if row is None:
+            r.finding(inst + "|unclassified", where, "a new kind of initializer: can it name a user-declared type? (add it to the table)")
+            continue
+        must, why = row
+        if not must:
+            r.justified(inst, why, where)
+            continue
+        succ = arm_of.get(name)
+        own_arm = succ is not None and len([l for l, s_ in arm_of.items() if s_ == succ]) == 1
+        region = b.reachable(succ, avoid=entries - {succ}) if own_arm else set()
+        if own_arm and region & look_bbs:
+            r.ok(inst, where, "looked up in the type table")
+        else:
+            r.finding(inst + "|type-not-looked-up", where, "a variable declared with a %s initializer names a type that is never looked up: an undeclared type is accepted there (no P0022)" % name)
+
+
 def run(ctx, rep):
     run_enumunique(ctx, rep)
     run_taskrefs(ctx, rep)
+    run_typeuses(ctx, rep)
